@@ -19,14 +19,26 @@ static _Bool vp_should_fail(void) {
 }
 void *vp_malloc(size_t s) {
     if (vp_should_fail()) return 0;
+#ifdef VP_FIXED_ALLOC
+    // functional jobs only: every block has the same constant size (a symbolic allocation size forces CBMC into its
+    // unbounded-array encoding); the request must fit, over-allocation cannot change the function's result
+    __CPROVER_assert(s <= VP_FIXED_ALLOC, "S-ALLOC: request fits the fixed block");
+    void *p = malloc(VP_FIXED_ALLOC);
+#else
     void *p = malloc(s ? s : 1);
+#endif
     __CPROVER_assume(p != 0);
     vp_live++;
     return p;
 }
 void *vp_calloc(size_t n, size_t s) {
     if (vp_should_fail()) return 0;
+#ifdef VP_FIXED_ALLOC
+    __CPROVER_assert(n <= VP_FIXED_ALLOC && s <= VP_FIXED_ALLOC && n * s <= VP_FIXED_ALLOC, "S-ALLOC: request fits the fixed block");
+    void *p = calloc(VP_FIXED_ALLOC, 1);
+#else
     void *p = calloc(n ? n : 1, s ? s : 1);
+#endif
     __CPROVER_assume(p != 0);
     vp_live++;
     return p;
